@@ -1,6 +1,8 @@
 pub use peek_until::peek_until_n;
 pub use pop::pop_n_left;
 pub use regex::{PATTERN_SET, SHOULD_END_LITERAL};
+#[cfg(feature = "verif")]
+pub use regex::verif_is_identifier_pattern;
 pub use trim_whitespace::trim_whitespace_left;
 
 mod peek_until;
